@@ -17,7 +17,8 @@ EXPLANATION = (
     "back): on the overwrite path of Storage::insert / OccupiedEntry::insert the old value is exchanged with the new one by mem::swap/replace and "
     "the function returns it; the fresh path returns None after not_present_insert. R6 (mask written whole only with clean): a call that empties an "
     "owner's mask (mem::take/replace/swap, BitSet::clear on the field) is followed on every path by clean() of the sibling storage. R7 (parallel "
-    "arrays reset together): every Vec field a storage's insert pushes onto is cleared by its clean()."
+    "arrays reset together): every Vec field a storage's insert pushes onto is cleared by its clean(). W10: outside the crate the raw storage is only "
+    "reachable mutably through an unsafe fn and the mask / inner fields of MaskedStorage are private, so the discipline cannot be bypassed by safe user code."
 )
 NOT_DECIDED = ("equality with a map for all operation sequences: return VALUES, dense swap_remove index fix-up, default-filled gaps, slice views "
                "(arithmetic over indices; rejected as brittle proxies in DESIGN.md section 5)")
@@ -149,6 +150,8 @@ def run(ctx):
         r5(ctx, facts)
         r6(ctx, facts)
         r7(ctx, facts)
+    from .. import witness
+    witness.run_set(ctx, "C04", ["w10_unprotected_storage_mut_needs_unsafe", "w10_masked_storage_fields_private"])
 
 
 def r1(ctx, facts):
